@@ -6,10 +6,17 @@ use std::collections::{BTreeMap, BTreeSet};
 pub const GARBAGE: u64 = 0xdead_0000_0000;
 pub const MISSING_INPUT: u64 = 0xbad0_0000_0000;
 pub const PART_SUFFIX: [&str; 3] = ["", "x", "y"];
+/// part index of the output name that the two slots of a pair (2k, 2k+1) share: `j<2k>s` is
+/// produced by whichever of the two currently claims it (the even slot wins while both do), so a
+/// multi-output job can lose an output that another present job now produces
+pub const SHARED: u8 = 3;
 
 /// Output names. The name of an odd slot extends the name of the slot before it (`j0`, `j0b`,
 /// `j2`, `j2b`, ...): one job's name being a substring of another's must not confuse anything.
 pub fn part_name(slot: usize, p: u8) -> String {
+    if p == SHARED {
+        return format!("j{}s", slot & !1);
+    }
     if slot % 2 == 1 {
         format!("j{}b{}", slot - 1, PART_SUFFIX[p as usize])
     } else {
@@ -23,7 +30,7 @@ fn strip_stamps(r: &str) -> String {
 }
 
 pub fn parts_of(mask: u8) -> impl Iterator<Item = u8> {
-    (0u8..3).filter(move |p| mask & (1 << p) != 0)
+    (0u8..4).filter(move |p| mask & (1 << p) != 0)
 }
 
 #[derive(Clone, Debug)]
@@ -113,16 +120,16 @@ impl World {
             let init = &sc.init[i];
             let mut deps = BTreeMap::new();
             for (u, m) in init.deps.iter() {
-                if *u < i && *m & 7 != 0 {
-                    deps.insert(*u, *m & 7);
+                if *u < i && *m & 15 != 0 {
+                    deps.insert(*u, *m & 15);
                 }
             }
             let parts = if sc.slots[i].kind == Kind::Always {
                 1
-            } else if init.parts & 7 == 0 {
+            } else if init.parts & 15 == 0 {
                 1
             } else {
-                init.parts & 7
+                init.parts & 15
             };
             st.push(SlotState {
                 active: init.active,
@@ -176,8 +183,22 @@ impl World {
         self.defs[s].kind
     }
 
+    /// the outputs job `s` currently produces: what it claims, minus the shared output of its pair
+    /// while the (active) even partner claims that too; never empty
+    pub fn parts(&self, s: usize) -> u8 {
+        let mut p = self.st[s].parts;
+        if p & (1 << SHARED) != 0 && s % 2 == 1 && self.st[s - 1].active && self.st[s - 1].parts & (1 << SHARED) != 0 {
+            p &= !(1 << SHARED);
+        }
+        if p == 0 {
+            1
+        } else {
+            p
+        }
+    }
+
     pub fn id(&self, s: usize) -> String {
-        let mut v: Vec<String> = parts_of(self.st[s].parts).map(|p| part_name(s, p)).collect();
+        let mut v: Vec<String> = parts_of(self.parts(s)).map(|p| part_name(s, p)).collect();
         v.sort();
         v.join(":::")
     }
@@ -195,9 +216,9 @@ impl World {
         let mut out = vec![];
         for (u, c) in self.st[s].deps.iter() {
             if self.st[*u].active {
-                let mut cons = c & self.st[*u].parts;
+                let mut cons = c & self.parts(*u);
                 if cons == 0 || self.cfg.names == Names::JobIds {
-                    cons = self.st[*u].parts;
+                    cons = self.parts(*u);
                 }
                 out.push((*u, cons));
             }
@@ -247,6 +268,10 @@ impl World {
     /// the behaviour of job `s` for its output `p`, given the contents of its inputs
     pub fn compute(&self, s: usize, p: u8, inputs: &BTreeMap<String, u64>) -> u64 {
         let mut h = mix(hstr(&part_name(s, p)), self.st[s].salt as u64);
+        if p == SHARED {
+            // the two possible producers of a shared output write different things
+            h = mix(h, s as u64);
+        }
         for (_u, n, ign) in self.consumed_names(s) {
             if !ign {
                 h = mix(h, hstr(&n));
@@ -264,7 +289,7 @@ impl World {
     pub fn clean_build(&self) -> BTreeMap<String, u64> {
         let mut c = BTreeMap::new();
         for s in self.active() {
-            for p in parts_of(self.st[s].parts) {
+            for p in parts_of(self.parts(s)) {
                 let v = self.compute(s, p, &c);
                 c.insert(part_name(s, p), v);
             }
@@ -273,7 +298,7 @@ impl World {
     }
 
     pub fn record(&self, s: usize, contents: &BTreeMap<String, u64>) -> String {
-        let mut names: Vec<String> = parts_of(self.st[s].parts).map(|p| part_name(s, p)).collect();
+        let mut names: Vec<String> = parts_of(self.parts(s)).map(|p| part_name(s, p)).collect();
         names.sort();
         names
             .iter()
@@ -295,7 +320,7 @@ impl World {
     }
 
     pub fn outputs_present(&self, s: usize) -> bool {
-        parts_of(self.st[s].parts).all(|p| self.disk.contains_key(&part_name(s, p)))
+        parts_of(self.parts(s)).all(|p| self.disk.contains_key(&part_name(s, p)))
     }
 
     /// the configured comparison (an equivalence on records for fixed (u, d),
@@ -389,13 +414,13 @@ impl World {
             Edit::ToggleDep { down, up, mask } => {
                 if *down < n && *up < *down {
                     if self.st[*down].deps.remove(up).is_none() {
-                        let m = if mask & 7 == 0 { 1 } else { mask & 7 };
+                        let m = if mask & 15 == 0 { 1 } else { mask & 15 };
                         self.st[*down].deps.insert(*up, m);
                     }
                 }
             }
             Edit::TogglePart(s, p) => {
-                if *s < n && *p < 3 && self.kind(*s) != Kind::Always {
+                if *s < n && *p < 4 && self.kind(*s) != Kind::Always {
                     let np = self.st[*s].parts ^ (1 << p);
                     if np != 0 {
                         self.st[*s].parts = np;
@@ -409,7 +434,7 @@ impl World {
             }
             Edit::Delete(s, m) => {
                 if *s < n {
-                    for p in parts_of(*m & 7) {
+                    for p in parts_of(*m & 15) {
                         let pn = part_name(*s, p);
                         self.disk.remove(&pn);
                         self.disk_writer.remove(&pn);
